@@ -261,10 +261,8 @@ void NifFile::SetShapeOrder(const std::vector<std::string>& order) {
 	}
 
 	auto root = GetRootNode();
-	if (root) {
-		sortState.newIndex = GetBlockID(root);
-		SetSortIndices(sortState.newIndex, sortState);
-	}
+	if (root)
+		SetSortIndices(GetBlockID(root), sortState);
 
 	for (size_t i = 0; i < sortState.newIndices.size(); i++) {
 		uint32_t index = static_cast<uint32_t>(i);
@@ -541,15 +539,10 @@ void NifFile::SortGraph(NiNode* root, SortState& sortState) {
 
 			if (isRootNode) {
 				// Reorder shapes on root node if order is provided
-				if (sortState.rootShapeOrder.size() == shapeIndices.size()) {
-					std::vector<uint32_t> newShapeIndices(shapeIndices.size());
-					for (size_t si = 0; si < sortState.rootShapeOrder.size(); si++) {
-						auto it = find(shapeIndices, sortState.rootShapeOrder[si]);
-						if (it != shapeIndices.end())
-							newShapeIndices[si] = shapeIndices[std::distance(shapeIndices.begin(), it)];
-					}
-					shapeIndices = newShapeIndices;
-				}
+				// (only if it lists exactly the shapes of this node, each as often as the node does)
+				if (sortState.rootShapeOrder.size() == shapeIndices.size()
+					&& std::is_permutation(shapeIndices.begin(), shapeIndices.end(), sortState.rootShapeOrder.begin()))
+					shapeIndices = sortState.rootShapeOrder;
 			}
 
 			for (auto& index : shapeIndices) {
@@ -582,15 +575,10 @@ void NifFile::SortGraph(NiNode* root, SortState& sortState) {
 
 			if (isRootNode) {
 				// Reorder shapes on root node if order is provided
-				if (sortState.rootShapeOrder.size() == shapeIndices.size()) {
-					std::vector<uint32_t> newShapeIndices(shapeIndices.size());
-					for (size_t si = 0; si < sortState.rootShapeOrder.size(); si++) {
-						auto it = find(shapeIndices, sortState.rootShapeOrder[si]);
-						if (it != shapeIndices.end())
-							newShapeIndices[si] = shapeIndices[std::distance(shapeIndices.begin(), it)];
-					}
-					shapeIndices = newShapeIndices;
-				}
+				// (only if it lists exactly the shapes of this node, each as often as the node does)
+				if (sortState.rootShapeOrder.size() == shapeIndices.size()
+					&& std::is_permutation(shapeIndices.begin(), shapeIndices.end(), sortState.rootShapeOrder.begin()))
+					shapeIndices = sortState.rootShapeOrder;
 			}
 
 			for (auto& index : shapeIndices) {
